@@ -216,6 +216,12 @@ class Program:
             r = reduce(d)
             if r is not None:
                 reduced.append(r)
+        # helpers in (anonymous / nested) namespaces inside optree: their members are handled like top-level declarations
+        i = 0
+        while i < len(reduced):
+            if reduced[i].k == 'NamespaceDecl':
+                reduced.extend(reduced[i].c)
+            i += 1
         # first pass: records and their ids
         for r in reduced:
             if r.k == 'CXXRecordDecl' and r.c:
